@@ -99,6 +99,7 @@ structure Link (s : Sys) : Prop where
   cancelled : ∀ l, (s.pipe l).cancelled = (s.bus.ls l).cancelled
   closed : ∀ l, (s.pipe l).inClosed = (s.bus.ls l).closed
   ready : ∀ l, (s.bus.ls l).rcvReady = false
+  noSaw : ∀ l, (s.bus.ls l).sawClose = false
 
 theorem next_of_step {c c' : Config} {m : Move} (h : step c m = some c') : next c m = c' := by
   simp [next, h]
@@ -218,7 +219,7 @@ theorem pstep_internal_flags {p p' : PConfig} {m : PMove} (hm : internalP m = tr
 
 theorem link_step {pl : Ev → Msg} {s s' : Sys} {m : SMove} (hI : LockInv s.bus) (hW : WatcherInv s.bus)
     (hL : Link s) (h : sstep pl s m = some s') : Link s' := by
-  obtain ⟨hc, hcl, hr⟩ := hL
+  obtain ⟨hc, hcl, hr, hsw⟩ := hL
   cases m with
   | bus m =>
     simp only [sstep] at h
@@ -297,14 +298,15 @@ theorem link_step {pl : Ev → Msg} {s s' : Sys} {m : SMove} (hI : LockInv s.bus
         have hbc : ∀ b : Config, ((next b (.cancel l)).ls l).cancelled = true ∧
             ((next b (.cancel l)).ls l).closed = (b.ls l).closed ∧
             ((next b (.cancel l)).ls l).rcvReady = (b.ls l).rcvReady ∧
+            ((next b (.cancel l)).ls l).sawClose = (b.ls l).sawClose ∧
             ∀ l', l' ≠ l → (next b (.cancel l)).ls l' = b.ls l' := by
           intro b
           refine ⟨by simp [next, step, Config.setL], by simp [next, step, Config.setL],
-            by simp [next, step, Config.setL], ?_⟩
+            by simp [next, step, Config.setL], by simp [next, step, Config.setL], ?_⟩
           intro l' hl; simp [next, step, Config.setL, upd_apply, hl]
         by_cases hcond : p'.cancelled = true ∧ (s.bus.ls l).cancelled = false
         · simp only [hcond, and_self, if_true]
-          obtain ⟨b1, b2, b3, b4⟩ := hbc s.bus
+          obtain ⟨b1, b2, b3, b5, b4⟩ := hbc s.bus
           constructor <;> intro l' <;> by_cases hl : l' = l
           · subst hl; simp [b1, hcond.1]
           · simp [upd_apply, hl, b4 l' hl, hc l']
@@ -312,6 +314,8 @@ theorem link_step {pl : Ev → Msg} {s s' : Sys} {m : SMove} (hI : LockInv s.bus
           · simp [upd_apply, hl, b4 l' hl, hcl l']
           · subst hl; simp [b3, hr l']
           · simp [b4 l' hl, hr l']
+          · subst hl; simp [b5, hsw l']
+          · simp [b4 l' hl, hsw l']
         · simp only [hcond, if_false]
           constructor <;> intro l' <;> by_cases hl : l' = l
           · subst hl
@@ -327,6 +331,8 @@ theorem link_step {pl : Ev → Msg} {s s' : Sys} {m : SMove} (hI : LockInv s.bus
           · simp [upd_apply, hl, hcl l']
           · exact hr l'
           · exact hr l'
+          · exact hsw l'
+          · exact hsw l'
     · cases h
 
 end ScVerif.C10
